@@ -57,12 +57,12 @@ func checkC13(c *Ctx) {
 	checkFormat(c, l, "FORMAT-fastnode", "fastnode.DeserializeNode", l.Func("fastnode", "DeserializeNode"), true, []string{"V(→Node.versionLastUpdatedAt) B(→Node.value)"})
 	checkFormat(c, l, "FORMAT-keys", "NodeKey.GetKey", l.Func("", "*NodeKey.GetKey"), false, []string{"MAKE(12) BE64@0(version) BE32@8(nonce)"})
 	checkFormat(c, l, "FORMAT-keys", "GetNodeKey", l.Func("", "GetNodeKey"), false, []string{"BE64@0(→NodeKey.version) BE32@8(→NodeKey.nonce)"})
-	checkFormat(c, l, "FORMAT-keys", "GetRootKey", l.Func("", "GetRootKey"), false, []string{"MAKE(12) BE64@0(param:version) BE32@8(1)"})
+	checkFormat(c, l, "FORMAT-keys", "GetRootKey", l.Func("", "GetRootKey"), false, []string{"MAKE(12) BE64@0(arg0) BE32@8(1)"})
 
 	// byte-level primitives the layouts above are expressed in
 	c.rule("FORMAT-primitives", "length-prefixed bytes and 32-byte hash primitives", 3)
-	checkFormatX(c, l, "FORMAT-primitives", "encoding.EncodeBytes", l.Func("internal/encoding", "EncodeBytes"), false, true, []string{"U(len(param:bz)) W(param:bz)"})
-	checkFormatX(c, l, "FORMAT-primitives", "encoding.Encode32BytesHash", l.Func("internal/encoding", "Encode32BytesHash"), false, true, []string{"W(global:hashLenBz) W(param:bz)"})
+	checkFormatX(c, l, "FORMAT-primitives", "encoding.EncodeBytes", l.Func("internal/encoding", "EncodeBytes"), false, true, []string{"U(len(arg1)) W(arg1)"})
+	checkFormatX(c, l, "FORMAT-primitives", "encoding.Encode32BytesHash", l.Func("internal/encoding", "Encode32BytesHash"), false, true, []string{"W(global:hashLenBz) W(arg1)"})
 	var encInit *ssa.Function
 	if p := l.Pkg("internal/encoding"); p != nil {
 		encInit = p.Func("init#1")
